@@ -374,6 +374,8 @@ def run_check(pid, tier, fn, level="model_checking"):
         expl = fn(ctx) or ""
         if ctx.partial and not ctx.violations:
             raise Undecided(ctx.partial)
+        if ctx.traces == 0 or ctx.events == 0:
+            raise Undecided("no execution of the real code was validated against the specification")
         rc = ctx.finish(expl)
     except Undecided as u:
         print("UNDECIDED property=%s: %s" % (pid, u))
